@@ -598,15 +598,15 @@ Proof.
       - inversion Em; subst. apply Hplain; reflexivity.
       - assert (Hby : forall mm, mm <> RCopy -> m = mm ->
                   T2 = (if tainted T k' then taint k T else T) -> step_post T2 dh dh1 p1).
-        { intros mm Hne Hm HT. destruct (tainted T k') eqn:Et'.
+        { intros mm Hne Hm HT. subst mm. destruct (tainted T k') eqn:Et'.
           - (* the default may bind k to a definition object: k becomes tainted *)
             subst T2. cbn [defaults_tree] in E1. destruct (running p) eqn:R; cbn [negb] in E1;
               [|inversion E1; subst; split; [reflexivity|intro; congruence]].
             destruct (Hp R) as [Hh Hx]. cbn [lget] in E1. destruct (aget k (ctx p)) as [c0|] eqn:Eg.
             + inversion E1; subst. split; [reflexivity|]. intros _. split; [assumption|].
               apply ctxfree_taint. assumption.
-            + eapply bind_byref_ok; try eassumption. congruence.
-          - apply Hplain; [|assumption]. subst m. destruct mm; [congruence| |]; cbn; assumption. }
+            + eapply bind_byref_ok; eassumption.
+          - apply Hplain; [|assumption]. destruct m; [congruence| |]; cbn; assumption. }
         destruct m.
         + inversion Em; subst. apply Hplain; reflexivity.
         + inversion Em; subst. eapply (Hby RFlat); [discriminate|reflexivity|reflexivity].
@@ -615,3 +615,249 @@ Proof.
       - destruct (byref_tainted T (TDict d)) eqn:Eo; [discriminate|]. inversion Em; subst. apply Hplain; auto. }
     destruct Hs as [A B]. subst dh1. eapply IH; eassumption.
 Qed.
+
+Ltac dead := solve [split; [reflexivity|]; let R := fresh "R" in intro R; cbn in R; first [discriminate | congruence]].
+
+Lemma step_ok : forall T T1 o dh p dh' p',
+  check_op T o = Some T1 -> step dh p o = (dh', p') -> pinv T p -> step_post T1 dh dh' p'.
+Proof.
+  intros T T1 o dh p dh' p' Hc E Hp. unfold step in E.
+  destruct (running p) eqn:R; cbn [negb] in E; [|inversion E; subst; split; [reflexivity|intro; congruence]].
+  destruct (Hp R) as [Hh Hx].
+  destruct o as [k c|k|k t|k k'|k t|m k t|k z|k s z|ps|ps|k k' n|k z|]; cbn [check_op] in Hc.
+  - (* InjectIn *) inversion Hc; inversion E; subst. split; [reflexivity|]. intros _. cbn.
+    split; [assumption|apply ctxfree_set_taint; assumption].
+  - (* Unset *) inversion Hc; inversion E; subst. split; [reflexivity|]. intros _. cbn.
+    split; [assumption|apply ctxfree_del; assumption].
+  - (* SetFmt *) eapply bind_ok; eassumption.
+  - (* CopyRef *) destruct (aget k' (ctx p)) as [c|] eqn:Eg; inversion E; subst; [|dead].
+    inversion Hc; subst. split; [reflexivity|]. intros _. cbn. split; [assumption|].
+    destruct (tainted T k') eqn:Et; [apply ctxfree_set_taint; assumption|].
+    apply ctxfree_set_untaint; [assumption|]. eapply Hx; eassumption.
+  - (* AppendKey *)
+    destruct (tainted T k || byref_tainted T t) eqn:Eo; [discriminate|]. inversion Hc; subst T1.
+    apply orb_false_iff in Eo. destruct Eo as [Et Eb].
+    destruct (fmt FUEL dh t p) as [p1 a] eqn:Ef. destruct (fmt_ok T FUEL dh t _ _ _ Ef) as [A [B C]].
+    destruct (running p1) eqn:R1; [|inversion E; subst; dead].
+    destruct (C Hh Hx Eb eq_refl) as [Hh1 Ha]. rewrite <- A in Hx.
+    destruct (aget k (ctx p1)) as [c|] eqn:Eg.
+    + pose proof (Hx _ _ Eg Et) as Hcf.
+      destruct (truthy dh p1 c) as [[|]|]; [| |inversion E; subst; dead].
+      * eapply append_to_ok; eassumption.
+      * inversion E; subst. split; [reflexivity|]. apply bind_new_list_ok; assumption.
+    + inversion E; subst. split; [reflexivity|]. apply bind_new_list_ok; assumption.
+  - (* AppendObj *)
+    destruct (tainted T k || byref_tainted T t) eqn:Eo; [discriminate|]. inversion Hc; subst T1.
+    apply orb_false_iff in Eo. destruct Eo as [Et Eb].
+    destruct (aget k (ctx p)) as [c|] eqn:Eg; [|inversion E; subst; dead].
+    pose proof (Hx _ _ Eg Et) as Hcf.
+    destruct (fmt FUEL dh t p) as [p1 a] eqn:Ef. destruct (fmt_ok T FUEL dh t _ _ _ Ef) as [A [B C]].
+    destruct (running p1) eqn:R1; [|inversion E; subst; dead].
+    destruct (C Hh Hx Eb eq_refl) as [Hh1 Ha]. rewrite <- A in Hx.
+    destruct (truthy dh p1 c) as [[|]|]; [|inversion E; subst; dead|inversion E; subst; dead].
+    eapply append_to_ok; eassumption.
+  - (* PyAppend *)
+    destruct (tainted T k) eqn:Et; [discriminate|]. inversion Hc; subst T1.
+    destruct (aget k (ctx p)) as [c|] eqn:Eg; [|inversion E; subst; dead].
+    eapply append_to_ok; try eassumption; [eapply Hx; eassumption|reflexivity].
+  - (* PySetItem *)
+    destruct (tainted T k) eqn:Et; [discriminate|]. inversion Hc; subst T1.
+    destruct (aget k (ctx p)) as [[z0|i]|] eqn:Eg; [inversion E; subst; dead| |inversion E; subst; dead].
+    pose proof (Hx _ _ Eg Et) as Hcf. destruct (cellfree_ptr _ Hcf) as [n Hn]. subst i.
+    cbn [hget hput] in E. destruct (nth_error (ph p) n) as [[l|d]|] eqn:En; inversion E; subst; try dead.
+    split; [reflexivity|]. intros _. cbn. split; [|assumption]. apply Forall_upd; [assumption|]. cbn.
+    apply forallb_aset; [exact (Forall_nth _ _ _ _ Hh En)|reflexivity].
+  - (* Merge *) eapply merge_fold_ok; eassumption.
+  - (* Defaults *) eapply defaults_fold_ok; eassumption.
+  - (* BindElem *)
+    inversion Hc; subst T1.
+    destruct (aget k' (ctx p)) as [[z0|i]|] eqn:Eg; [inversion E; subst; dead| |inversion E; subst; dead].
+    destruct (tainted T k') eqn:Et.
+    + destruct (hget dh (ph p) i) as [[l|d]|]; [|inversion E; subst; dead|inversion E; subst; dead].
+      destruct (nth_error l n) as [c|]; inversion E; subst; [|dead].
+      split; [reflexivity|]. intros _. cbn. split; [assumption|apply ctxfree_set_taint; assumption].
+    + pose proof (Hx _ _ Eg Et) as Hcf. destruct (cellfree_ptr _ Hcf) as [m Hm]. subst i. cbn [hget] in E.
+      destruct (nth_error (ph p) m) as [[l|d]|] eqn:En; [|inversion E; subst; dead|inversion E; subst; dead].
+      destruct (nth_error l n) as [c|] eqn:El; inversion E; subst; [|dead].
+      split; [reflexivity|]. intros _. cbn. split; [assumption|]. apply ctxfree_set_untaint; [assumption|].
+      pose proof (Forall_nth _ _ _ _ Hh En) as Ho. cbn in Ho. rewrite forallb_forall in Ho.
+      apply Ho. eapply nth_error_In. exact El.
+  - (* SetInt *) inversion Hc; inversion E; subst. split; [reflexivity|]. intros _. cbn.
+    split; [assumption|apply ctxfree_set_untaint; [assumption|reflexivity]].
+  - (* Probe *) inversion Hc; inversion E; subst. split; [reflexivity|]. intros _. cbn. split; assumption.
+Qed.
+
+(* ---------------- a whole run *)
+Lemma run_ok : forall ops T T1 dh p dh' p',
+  fold_taint check_op T ops = Some T1 -> run dh p ops = (dh', p') -> pinv T p ->
+  dh' = dh /\ pinv T1 p'.
+Proof.
+  induction ops as [|o r IH]; intros T T1 dh p dh' p' Hf E Hp; cbn in Hf, E.
+  - inversion Hf; inversion E; subst. split; [reflexivity|assumption].
+  - destruct (check_op T o) as [T2|] eqn:Ec; [|discriminate].
+    destruct (step dh p o) as [dh1 p1] eqn:Es.
+    destruct (step_ok _ _ _ _ _ _ _ Ec Es Hp) as [A B]. subst dh1. eapply IH; eassumption.
+Qed.
+
+Lemma run_read_only : forall ops T T1 dh p,
+  fold_taint check_op T ops = Some T1 -> pinv T p -> read_only step dh p ops.
+Proof.
+  induction ops as [|o r IH]; intros T T1 dh p Hf Hp; cbn in *; [exact I|].
+  destruct (check_op T o) as [T2|] eqn:Ec; [|discriminate].
+  destruct (step dh p o) as [dh1 p1] eqn:Es.
+  destruct (step_ok _ _ _ _ _ _ _ Ec Es Hp) as [A B]. cbn. split; [assumption|].
+  eapply IH; eassumption.
+Qed.
+
+Lemma byref_nil : forall t, byref_tainted [] t = false.
+Proof.
+  induction t as [z|m k|l IH|d IH] using tree_ind'; cbn.
+  - reflexivity.
+  - destruct m; reflexivity.
+  - induction IH as [|x r Hx Hr IHr]; cbn; [reflexivity|]. rewrite Hx. exact IHr.
+  - induction IH as [|x r Hx Hr IHr]; cbn; [reflexivity|]. rewrite Hx. exact IHr.
+Qed.
+
+Lemma init_ok : forall kvs p, pinv [] p -> pinv [] (init_ctx kvs p).
+Proof.
+  induction kvs as [|[k t] r IH]; intros p Hp; cbn; [assumption|].
+  destruct (running p) eqn:R; cbn [negb]; [|assumption].
+  destruct (Hp R) as [Hh Hx].
+  destruct (fmt FUEL [] t p) as [p1 c] eqn:Ef. destruct (fmt_ok [] FUEL [] t _ _ _ Ef) as [A [B C]].
+  apply IH. destruct (running p1) eqn:R1.
+  - destruct (C Hh Hx (byref_nil t) eq_refl) as [Hh1 Hc]. intros _. cbn. split; [assumption|].
+    rewrite A. apply ctxfree_set; assumption.
+  - intro R'. congruence.
+Qed.
+
+Lemma start_ok : forall r, pinv [] (start r).
+Proof.
+  intro r. apply init_ok. intros _. cbn. split; [constructor|]. intros k c H. discriminate.
+Qed.
+
+Lemma finish_closed : forall dh h, closed dh = true -> finish dh h = dh.
+Proof.
+  intros dh h H. unfold finish, closed in *. destruct (existsb obj_has_P dh); [discriminate|reflexivity].
+Qed.
+
+(* a disciplined run leaves the definition heap exactly as it found it *)
+Lemma disciplined_run_unchanged : forall dh r,
+  closed dh = true -> disciplined (r_ops r) = true -> fst (run1 dh r) = dh.
+Proof.
+  intros dh r Hc Hd. unfold run1, disciplined in *.
+  destruct (fold_taint check_op [] (r_ops r)) as [T1|] eqn:Ef; [|discriminate].
+  destruct (run dh (start r) (r_ops r)) as [dh1 p1] eqn:Er.
+  destruct (run_ok _ _ _ _ _ _ _ Ef Er (start_ok r)) as [A _]. subst dh1. cbn.
+  apply finish_closed. assumption.
+Qed.
+
+(* ... at EVERY step of the run (not only at its end) *)
+Lemma disciplined_run_read_only : forall dh r,
+  disciplined (r_ops r) = true -> read_only step dh (start r) (r_ops r).
+Proof.
+  intros dh r Hd. unfold disciplined in Hd.
+  destruct (fold_taint check_op [] (r_ops r)) as [T1|] eqn:Ef; [|discriminate].
+  eapply run_read_only; [exact Ef|apply start_ok].
+Qed.
+
+Lemma disciplined_history : forall rs dh,
+  closed dh = true -> Forall (fun r => disciplined (r_ops r) = true) rs ->
+  history dh rs = (dh, map (fun r => snd (run1 dh r)) rs).
+Proof.
+  intros rs dh Hc H. apply history_unchanged. eapply Forall_impl; [|exact H].
+  intros r Hr. cbn. apply disciplined_run_unchanged; assumption.
+Qed.
+
+Lemma disciplined_rerun_equal : forall rs dh i j r,
+  closed dh = true -> Forall (fun r => disciplined (r_ops r) = true) rs ->
+  nth_error rs i = Some r -> nth_error rs j = Some r ->
+  nth_error (snd (history dh rs)) i = nth_error (snd (history dh rs)) j.
+Proof.
+  intros rs dh i j r Hc H Hi Hj.
+  assert (Hu : Forall (fun r => fst (run1 dh r) = dh) rs).
+  { eapply Forall_impl; [|exact H]. intros r0 Hr. cbn. apply disciplined_run_unchanged; assumption. }
+  destruct (rerun_equal rs dh i j r Hu Hi Hj) as [A B]. congruence.
+Qed.
+
+(* two (or any number of) disciplined runs on concurrent threads, each with its own
+   context: under EVERY interleaving of their operations the definition heap is untouched
+   and each run ends in the private state it reaches when run alone *)
+Lemma disciplined_interleaving : forall dh (sch : list (nat * op)) (inits : nat -> list (string * tree)),
+  (forall t, disciplined (proj t sch) = true) ->
+  let ps := fun t => init_ctx (inits t) empty_priv in
+  fst (sched_run step dh ps sch) = dh /\
+  forall t, snd (sched_run step dh ps sch) t = snd (run dh (ps t) (proj t sch)).
+Proof.
+  intros dh sch inits H ps.
+  assert (Hro : forall t, read_only step dh (ps t) (proj t sch)).
+  { intro t. exact (disciplined_run_read_only dh (mkrun (inits t) (proj t sch)) (H t)). }
+  destruct (interleaving step sch dh ps Hro) as [A B]. split; [exact A|].
+  intro t. rewrite (run_is_exec (proj t sch) dh (ps t)). exact (B t).
+Qed.
+
+(* ================================================================ D. the defect *)
+Definition witness_defs : list tree := [TList [TInt 1; TInt 2]].
+Definition witness_run : runspec := mkrun [] [InjectIn "k" (CPtr (D 0)); AppendKey "k" (TInt 3)].
+
+Lemma no_def_mutation_refuted :
+  exists defs r, let dh := fst (load defs []) in
+    closed dh = true /\ fst (run1 dh r) <> dh /\
+    snd (run1 (fst (run1 dh r)) r) <> snd (run1 dh r).
+Proof.
+  exists witness_defs, witness_run. vm_compute. split; [reflexivity|]. split; intro H; discriminate H.
+Qed.
+
+(* ================================================================ E. loaded definitions are closed *)
+Lemma closed_app : forall h o, closed h = true -> obj_has_P o = false -> closed (h ++ [o]) = true.
+Proof.
+  intros h o H Ho. unfold closed in *. rewrite existsb_app. cbn. rewrite Ho.
+  apply negb_true_iff in H. rewrite H. reflexivity.
+Qed.
+
+Definition dalloc_spec (f : tree -> heap -> heap * cell) (t : tree) : Prop :=
+  forall dh dh' c, f t dh = (dh', c) -> closed dh = true -> closed dh' = true /\ cell_has_P c = false.
+
+Lemma dalloc_cells_ok : forall f l, Forall (dalloc_spec f) l ->
+  forall dh dh' cs, dalloc_cells f l dh = (dh', cs) -> closed dh = true ->
+    closed dh' = true /\ existsb cell_has_P cs = false.
+Proof.
+  intros f l H. induction H as [|t r Ht Hr IH]; intros dh dh' cs E Hc; cbn in E.
+  - inversion E; subst. auto.
+  - destruct (f t dh) as [dh1 c] eqn:E1. destruct (dalloc_cells f r dh1) as [dh2 cs2] eqn:E2.
+    inversion E; subst. destruct (Ht _ _ _ E1 Hc) as [A B]. destruct (IH _ _ _ E2 A) as [A2 B2].
+    split; [assumption|]. cbn. rewrite B, B2. reflexivity.
+Qed.
+
+Lemma dalloc_pairs_ok : forall f l, Forall (fun kt => dalloc_spec f (snd kt)) l ->
+  forall dh dh' cs, dalloc_pairs f l dh = (dh', cs) -> closed dh = true ->
+    closed dh' = true /\ existsb (fun kc : string * cell => cell_has_P (snd kc)) cs = false.
+Proof.
+  intros f l H. induction H as [|[k t] r Ht Hr IH]; intros dh dh' cs E Hc; cbn in E.
+  - inversion E; subst. auto.
+  - cbn in Ht. destruct (f t dh) as [dh1 c] eqn:E1. destruct (dalloc_pairs f r dh1) as [dh2 cs2] eqn:E2.
+    inversion E; subst. destruct (Ht _ _ _ E1 Hc) as [A B]. destruct (IH _ _ _ E2 A) as [A2 B2].
+    split; [assumption|]. cbn. rewrite B, B2. reflexivity.
+Qed.
+
+Lemma dalloc_ok : forall t, dalloc_spec dalloc t.
+Proof.
+  induction t as [z|m k|l IH|d IH] using tree_ind'; intros dh dh' c E Hc; cbn [dalloc] in E.
+  - inversion E; subst. auto.
+  - inversion E; subst. auto.
+  - destruct (dalloc_cells dalloc l dh) as [dh1 cs] eqn:E1. inversion E; subst.
+    destruct (dalloc_cells_ok _ _ IH _ _ _ E1 Hc) as [A B]. split; [|reflexivity].
+    apply closed_app; assumption.
+  - destruct (dalloc_pairs dalloc d dh) as [dh1 cs] eqn:E1. inversion E; subst.
+    destruct (dalloc_pairs_ok _ _ IH _ _ _ E1 Hc) as [A B]. split; [|reflexivity].
+    apply closed_app; assumption.
+Qed.
+
+Lemma load_closed_gen : forall ts dh, closed dh = true -> closed (fst (load ts dh)) = true.
+Proof.
+  induction ts as [|t r IH]; intros dh Hc; cbn; [assumption|].
+  destruct (dalloc t dh) as [dh1 c] eqn:E1. destruct (dalloc_ok t _ _ _ E1 Hc) as [A _].
+  specialize (IH dh1 A). destruct (load r dh1) as [dh2 cs]. exact IH.
+Qed.
+
+Lemma load_closed : forall ts, closed (fst (load ts [])) = true.
+Proof. intro ts. apply load_closed_gen. reflexivity. Qed.
